@@ -136,6 +136,8 @@ def check_c03(prog, rep, tier, cfg):
     layout.zeroing_after_wrapping(prog, rep, "C03.d")
     layout.rewrite_is_reported(prog, rep, "C03.d")
     layout.check_c09(prog, AliasReport(rep, [("C09.d", r".", "C03.d")]), tier, cfg)
+    # C03.f — measurements memoised by the first wrapping pass do not outlive the text they were taken from (shared with C11.d; 1 known finding)
+    layout.check_c11(prog, AliasReport(rep, [("C11.d", r".", "C03.f")]), tier, cfg)
     # C03.e — the surviving layout fact is a projection
     layout.check_c06(prog, AliasReport(rep, [("C06.a", r"newline-count-read-only-as-clamp|whitespace-reduced-to-counts|anchor:reconstruct_solution|anchor:FormattingData::from", "C03.e")]), tier, cfg)
 
